@@ -11,7 +11,7 @@ ASSUMPTIONS = ["argument texts are balanced MML fragments without ',' at top lev
                "a macro call is not placed inside a tuplet (the tuplet count is taken at lex time: documented limitation)"]
 TRUSTED = ["the generator-side inlining of the call site"]
 
-FRAGS = ["c", "d8", "e4.", "r", "o4", "v90", "q80", "l8", ">", "<", "[2 c d]", "n60,8", "'ce'", "c d e", "g2^8"]
+FRAGS = ["c", "d8", "e4.", "r", "o4", "v90", "q80", "l8", ">", "<", "[2 c d]", "n60,8", '"c d"', '"e"', '`c d`', "'ce'", "c d e", "g2^8"]
 
 def body_with_params(rng, nparams):
     parts = []
@@ -19,6 +19,8 @@ def body_with_params(rng, nparams):
         if nparams and rng.random() < 0.5: parts.append("#?%d" % rng.randint(1, nparams))
         else: parts.append(rng.choice(FRAGS))
     if nparams and not any("#?" in p for p in parts): parts.append("#?1")
+    # `{"` opens a string literal for the preprocessor: a body that begins with the octave-once mark `"` must also end with it (one literal)
+    if parts[0].startswith('"') and len(parts) > 1: parts.insert(0, "c")
     return " ".join(parts)
 
 def streams(tier, rng, P, only=None, cases=None):
@@ -29,14 +31,23 @@ def streams(tier, rng, P, only=None, cases=None):
         for i in range(n):
             npar = rng.choice([0, 0, 1, 2, 3, 10, 12])
             body = body_with_params(rng, npar)
-            args = [rng.choice(FRAGS[:12]) for _ in range(npar)]
+            args = [rng.choice(FRAGS[:15]) for _ in range(npar)]
             name = rng.choice(["#A", "#Mac", "STRV"])
             if name.startswith("#"): define = "%s={%s}" % (name, body); call0 = name
             else: define = "STR %s={%s};" % (name, body); call0 = name
             call = call0 + ("(%s)" % ",".join("{%s}" % a for a in args) if npar else "")
-            site = rng.choice(["%s", "%s", "[2 %s]", "Sub{%s} r", "o5 %s v100", "#Outer={%s r} #Outer"])
+            site = rng.choice(["%s", "%s", "[2 %s]", "Sub{ %s } r", "o5 %s v100", "#Outer={ %s r} #Outer"])
             pre = rng.choice(["", "l8 ", "o4 v80 "])
             raw.append(dict(define=define, call=call, site=site, pre=pre, body=body, args=args))
+        for i in range(n // 10):
+            # texts that begin and end with the octave-once marks `"` / `` ` `` (MML commands, not quotation marks): as a whole argument and as
+            # a whole string-variable body
+            q = rng.choice(['"', '`']); inner = rng.choice(["c", "c d", "e8 g", "c d e"]); txt = q + inner + q
+            k = rng.random()
+            if k < 0.4: body = "#?1 e"; args = [txt]; name = rng.choice(["#A", "#Mac"]); define = "%s={%s}" % (name, body); call = "%s({%s})" % (name, txt)
+            elif k < 0.7: body = txt; args = []; define = "STR STRV={%s};" % txt; call = "STRV"
+            else: body = "c #?2 #?1"; args = [txt, rng.choice(["d", txt])]; define = "STR STRV={%s};" % body; call = "STRV({%s},{%s})" % (args[0], args[1])
+            raw.append(dict(define=define, call=call, site=rng.choice(["%s", "%s f", "[2 %s]"]), pre=rng.choice(["", "l8 "]), body=body, args=args))
         for i in range(n // 12):
             # two macros / string variables whose names are in a prefix relation, the shorter one called without arguments from a body
             # or site that also mentions the longer one
@@ -47,7 +58,7 @@ def streams(tier, rng, P, only=None, cases=None):
             sbody = rng.choice(["c %s d", "%s", "l8 %s %s e", "[2 %s] c"]).replace("%s", longn)
             if kind == "#": define = "%s={%s} %s={%s}" % (longn, lbody, shortn, sbody)
             else: define = "STR %s={%s}; STR %s={%s};" % (longn, lbody, shortn, sbody)
-            site = rng.choice(["%s", "[2 %s]", "Sub{%s} r", "l8 %s c"])
+            site = rng.choice(["%s", "[2 %s]", "Sub{ %s } r", "l8 %s c"])
             raw.append(dict(define=define, call=shortn, site=site, pre=rng.choice(["", "l8 "]), body=sbody.replace(longn, lbody), args=[]))
         for i in range(n // 10):
             # macro bodies that execute BREAK / CONTINUE / RETURN, called with arguments from inside FOR / WHILE bodies and user functions:
